@@ -61,6 +61,24 @@ theorem reuse_loop (fmt : Bytes) (args : List Bytes) :
     exact ⟨rfl, out, by simpa using h, hr⟩
   | some e => left; exact ⟨e, rfl, printfLoop_err fmt e he _ _ _⟩
 
+/-- Format reuse, one step: when a pass consumed at least one argument and some remain, the format
+    is applied again — `printf fmt args` writes what the first pass wrote, followed by exactly
+    what `printf fmt <remaining args>` writes. -/
+theorem printf_reuse (fmt : Bytes) (args : List Bytes) (out : Bytes) (left : Nat)
+    (h : formatArgs fmt args = .ok out left) (h0 : 0 < left) (hl : left < args.length) :
+    ∃ out', printfBuiltin (fmt :: args.drop (args.length - left)) = .done ⟨out', 0⟩ ∧
+      printfBuiltin (fmt :: args) = .done ⟨out ++ out', 0⟩ :=
+  printf_reuse_step fmt args out left h h0 hl
+
+/-- … instantiated for a format that is one well-formed directive: each argument is formatted in
+    turn (`printf '%5d' a b c` = `%5d` of `a`, then `printf '%5d' b c`). -/
+theorem printf_reuse_directive (d : MDir) (h : d.WF) (a b : Bytes) (rest : List Bytes) :
+    ∃ out', printfBuiltin (d.render :: b :: rest) = .done ⟨out', 0⟩ ∧
+      printfBuiltin (d.render :: a :: b :: rest) = .done ⟨d.out formatNil a ++ out', 0⟩ := by
+  have hfa := formatArgs_directive d h (a :: b :: rest)
+  have := printf_reuse_step d.render (a :: b :: rest) _ _ hfa (by simp) (by simp)
+  simpa using this
+
 /-- Missing arguments are empty strings (numeric conversions print 0, `%c` a NUL byte): padding
     the argument list with empty strings changes nothing that is written. -/
 theorem missing_args (fmt : Bytes) (args : List Bytes) (m : Nat) :
@@ -121,20 +139,20 @@ theorem directive_sem_step (d : MDir) (h : d.WF) (rest : Bytes) (args : List Byt
   go_directive_out formatNil nestedOK_formatNil d h rest args
 
 /-- `%d %i` with any accepted flag, `0` and width (≤ 6 digits): C's rendering of the value. -/
-theorem directive_sem_signed (d : MDir) (h : d.WF) (hw : d.width.length ≤ 6)
+theorem directive_sem_signed (d : MDir) (h : d.WF) (hw : WidthOK d.width)
     (hv : d.verb = 100 ∨ d.verb = 105) (a : Bytes) :
     d.out formatNil a = Spec.fmtSigned d.spec (parseInt a).1 :=
   dir_out_signed formatNil d h hw hv a
 
 /-- `%u %o %x` with flag `-` or none, `0` and width: C's rendering of the value modulo 2^64. -/
-theorem directive_sem_unsigned (d : MDir) (h : d.WF) (hw : d.width.length ≤ 6)
+theorem directive_sem_unsigned (d : MDir) (h : d.WF) (hw : WidthOK d.width)
     (hv : d.verb = 117 ∨ d.verb = 111 ∨ d.verb = 120) (hfl : d.flag = [] ∨ d.flag = [45]) (a : Bytes) :
     d.out formatNil a = Spec.fmtUnsigned d.spec
       (if d.verb = 111 then 8 else if d.verb = 120 then 16 else 10) (toU64 (parseInt a).1) :=
   dir_out_unsigned formatNil d h hw hv hfl a
 
 /-- `%s` without `0` flag, with no width or an ASCII argument: bash's padding. -/
-theorem directive_sem_string (d : MDir) (h : d.WF) (hw : d.width.length ≤ 6) (hv : d.verb = 115)
+theorem directive_sem_string (d : MDir) (h : d.WF) (hw : WidthOK d.width) (hv : d.verb = 115)
     (hz : d.zeros = 0) (a : Bytes) (ha : d.width = [] ∨ ∀ b ∈ a, b < 128) :
     d.out formatNil a = (Spec.runDir d.spec a).out := by
   rw [dir_out_string formatNil d h hw hv hz a ha]
@@ -156,11 +174,27 @@ theorem parse_int_range (a : Bytes) :
 def numeric_arg_statement : Prop :=
   ∀ a : Bytes, (parseInt a).1 = (Spec.signedArg a).val ∧ (Spec.signedArg a).bad = false
 
-/-- … they do agree on plain decimal numerals (no sign, no leading zero) of any length, including
-    the clamping to the int64 range. -/
-theorem numeric_arg_partial (c0 : UInt8) (t : Bytes) (h : ∀ d ∈ c0 :: t, 48 ≤ d ∧ d ≤ 57) (h0 : c0 ≠ 48) :
-    (parseInt (c0 :: t)).1 = (Spec.signedArg (c0 :: t)).val ∧ (Spec.signedArg (c0 :: t)).bad = false :=
-  numeric_arg_decimal c0 t h h0
+/-- … they do agree — value, clamping to the int64 range, no error — on the empty argument and on
+    every well-formed C integer literal (`CleanNum`): optional `+`/`-`, then a decimal numeral
+    without leading zero, or `0` followed by octal digits, or `0x`/`0X` followed by hexadecimal
+    digits; any length.  Outside this region the statement is false: trailing garbage / no digits
+    (`finding_invalid_number`), `_` `0b` `0o` (`finding_go_int_syntax`), leading white space and the
+    `'c` / `"c` character forms (`finding_bash_number_forms`, `numeric_arg_fails_space`). -/
+theorem numeric_arg_partial (a : Bytes) (h : a = [] ∨ CleanNum a) :
+    (parseInt a).1 = (Spec.signedArg a).val ∧ (Spec.signedArg a).bad = false := by
+  rcases h with h | h
+  · subst h; decide
+  · exact numeric_arg_clean a h
+
+/-- The same for `%u %o %x`, whose argument Go converts with `uint(n)` and bash parses with
+    `strtoumax`: agreement on the literals whose value lies in the int64 range (beyond it:
+    `finding_unsigned_range`). -/
+theorem numeric_uarg_partial (sign : Bytes) (hs : sign = [] ∨ sign = [43] ∨ sign = [45])
+    {body ds : Bytes} {b : Nat} (h : NumBody body b ds)
+    (hr : InInt64 (decide (sign = [45])) (foldv b ds 0)) :
+    (Spec.unsignedArg (sign ++ body)).val = Int.ofNat (toU64 (parseInt (sign ++ body)).1) ∧
+    (Spec.unsignedArg (sign ++ body)).bad = false :=
+  unsignedArg_clean sign hs h hr
 
 theorem numeric_arg_fails : ¬ numeric_arg_statement := by
   intro h
@@ -168,16 +202,43 @@ theorem numeric_arg_fails : ¬ numeric_arg_statement := by
   revert this
   decide
 
-/-- `%d`/`%i` applied to a plain decimal numeral: exactly what bash writes, and no error status. -/
-theorem directive_sem_partial (d : MDir) (h : d.WF) (hw : d.width.length ≤ 6)
-    (hv : d.verb = 100 ∨ d.verb = 105) (c0 : UInt8) (t : Bytes)
-    (ha : ∀ x ∈ c0 :: t, 48 ≤ x ∧ x ≤ 57) (h0 : c0 ≠ 48) :
-    d.out formatNil (c0 :: t) = (Spec.runDir d.spec (c0 :: t)).out ∧
-    (Spec.runDir d.spec (c0 :: t)).bad = false ∧ (Spec.runDir d.spec (c0 :: t)).stop = false := by
-  obtain ⟨hval, hbad⟩ := numeric_arg_decimal c0 t ha h0
+/-- `printf %d ' 5'`: Go rejects the leading blank (0), bash skips it (5). -/
+theorem numeric_arg_fails_space :
+    (parseInt [32, 53]).1 = 0 ∧ Spec.signedArg [32, 53] = { val := 5, bad := false } := by decide
+
+/-- `printf %d "'a"`: the character form. -/
+theorem numeric_arg_fails_quote :
+    (parseInt [39, 97]).1 = 0 ∧ Spec.signedArg [39, 97] = { val := 97, bad := false } := by decide
+
+/-- Every width of at most seven digits satisfies the width hypothesis of the directive theorems;
+    the hypothesis itself (`WidthOK`: no proper prefix of the digits exceeds 10^6) is exactly Go's
+    `parsenum`/`tooLarge` acceptance — beyond it see `finding_huge_width`. -/
+theorem width_ok_seven (ws : Bytes) (hds : ∀ d ∈ ws, isDec d = true) (h : ws.length ≤ 7) : WidthOK ws :=
+  widthOK_of_length ws hds h
+
+/-- `%d`/`%i` (any accepted flag, `0`, any width `fmt` accepts) applied to the empty argument or a
+    well-formed integer literal: exactly the bytes bash writes, no error status, no stop. -/
+theorem directive_sem_partial (d : MDir) (h : d.WF) (hw : WidthOK d.width)
+    (hv : d.verb = 100 ∨ d.verb = 105) (a : Bytes) (ha : a = [] ∨ CleanNum a) :
+    d.out formatNil a = (Spec.runDir d.spec a).out ∧
+    (Spec.runDir d.spec a).bad = false ∧ (Spec.runDir d.spec a).stop = false := by
+  obtain ⟨hval, hbad⟩ := numeric_arg_partial a ha
   rw [dir_out_signed formatNil d h hw hv, hval]
   have hvs : d.spec.verb = d.verb := rfl
   rcases hv with hv | hv <;> simp [Spec.runDir, hvs, hv, hbad]
+
+/-- `%u %o %x` (flag `-` or none, `0`, any accepted width) applied to a well-formed literal in the
+    int64 range: exactly the bytes bash writes, no error status, no stop. -/
+theorem directive_sem_unsigned_partial (d : MDir) (h : d.WF) (hw : WidthOK d.width)
+    (hv : d.verb = 117 ∨ d.verb = 111 ∨ d.verb = 120) (hfl : d.flag = [] ∨ d.flag = [45])
+    (sign : Bytes) (hs : sign = [] ∨ sign = [43] ∨ sign = [45]) {body ds : Bytes} {b : Nat}
+    (hb : NumBody body b ds) (hr : InInt64 (decide (sign = [45])) (foldv b ds 0)) :
+    d.out formatNil (sign ++ body) = (Spec.runDir d.spec (sign ++ body)).out ∧
+    (Spec.runDir d.spec (sign ++ body)).bad = false ∧ (Spec.runDir d.spec (sign ++ body)).stop = false := by
+  obtain ⟨hval, hbad⟩ := unsignedArg_clean sign hs hb hr
+  rw [dir_out_unsigned formatNil d h hw hv hfl]
+  have hvs : d.spec.verb = d.verb := rfl
+  rcases hv with hv | hv | hv <;> simp [Spec.runDir, hvs, hv, hbad, hval]
 
 /-! ## the property itself, and where it fails
 
@@ -323,6 +384,11 @@ example : EchoLikeBash [[45, 101], [97, 92, 116, 98], [92, 120, 52, 49]] := by
   have h' : Spec.echo [[45, 101], [97, 92, 116, 98], [92, 120, 52, 49]] = .res [97, 9, 98, 32, 65, 10] 0 := by
     decide
   rw [h'] at h; cases h; decide
+example : CleanNum [45, 48, 120, 49, 70] :=
+  ⟨[45], [48, 120, 49, 70], 16, [49, 70], Or.inr (Or.inr rfl), NumBody.hex 120 [49, 70] (Or.inl rfl) (by decide) (by decide), rfl⟩
+example : CleanNum [48, 49, 55] := ⟨[], [48, 49, 55], 8, [49, 55], Or.inl rfl, NumBody.oct [49, 55] (by decide), rfl⟩
+example : WidthOK [49, 48, 48, 48, 48, 48, 48, 57] := by simp [WidthOK, PrefixOK]
+example : ¬ WidthOK [49, 48, 48, 48, 48, 48, 49, 48] := by simp [WidthOK, PrefixOK]
 example : (⟨[45], 0, [53], 100⟩ : MDir).WF := ⟨by simp, by decide, by simp, by decide⟩
 
 end ShVerif.C24
